@@ -1937,11 +1937,10 @@ func (w *Writer) writeZeroInitMember(accessPath string, typeHandle ir.TypeHandle
 		// Check if the struct contains atomics
 		if w.typeContainsAtomics(typeHandle) {
 			// Zero-init each member individually
-			for _, member := range inner.Members {
-				memberName := member.Name
-				if memberName == "" {
-					memberName = "inner" // fallback
-				}
+			for i, member := range inner.Members {
+				// The member is declared under the name the namer registered for it
+				// (keywords and names ending in a digit get a trailing underscore).
+				memberName := w.getName(nameKey{kind: nameKeyStructMember, handle1: uint32(typeHandle), handle2: uint32(i)})
 				memberPath := fmt.Sprintf("%s.%s", accessPath, memberName)
 				if err := w.writeZeroInitMember(memberPath, member.Type, depth); err != nil {
 					return err
